@@ -355,3 +355,7 @@ def run(ctx):
     r2(ctx)
     r3(ctx)
     r4(ctx)
+    import rules.C01 as c01
+    ctx.borrow(c01.r4, {'C01.R4': 'C11.R5'},
+               'the CRC is defined over the escaped sequence: in the protocol handler the received symbol enters the CRC '
+               'before it is unescaped, and in exactly the data states')
